@@ -290,6 +290,14 @@ def ee7%(u)s():
 print(ee3%(u)s(), ee4%(u)s(7, 3), ee7%(u)s(), len(ee6%(u)s))""" % {"u": u, "uni": uni}
 
 
+@template(tags=("text", "new_unicode"), minlevel=(3, 6), py2=False)
+def t_new_unicode(rng, lvl, u):
+    """Text constants with code points assigned in Unicode 13, 14, 15 and 15.1: whether str.__repr__ shows them or escapes
+    them depends on the Unicode database of the *running* interpreter (3.8: 12.1 ... 3.13: 15.1)."""
+    return ("nu%s_13 = '\\U0001fad6 tea'\nnu%s_14 = 'x\\U0001f979\\u0870'\nnu%s_15 = '\\U0001fae8'\nnu%s_151 = '\\u2ffc'\n"
+            "def nuf%s():\n    return ('\\U0001fae8', '\\U00011f00')\nprint(len(nu%s_13))" % (u, u, u, u, u, u))
+
+
 @template(tags=("ext_jumps",))
 def t_ext_jumps(rng, lvl, u):
     """Every aggregate-building construct with an operand that contains a jump (conditional expression, `or`, `and`, chained
@@ -952,7 +960,7 @@ print zops%(u)s(5, 3)[:3], zl%(u)s(1)
 """ % {"u": u}
 
 
-NO_WRAP = {"t_ext_jumps", "t_opcode_zoo", "t_opcode_zoo2", "t_py2_raise", "t_ext_edges", "t_shared_frozenset", "t_shared_big_tuple", "t_many_names", "t_misc", "t_import", "t_pep695", "t_line_gaps"}
+NO_WRAP = {"t_new_unicode", "t_ext_jumps", "t_opcode_zoo", "t_opcode_zoo2", "t_py2_raise", "t_ext_edges", "t_shared_frozenset", "t_shared_big_tuple", "t_many_names", "t_misc", "t_import", "t_pep695", "t_line_gaps"}
 NO_CLASS_WRAP = NO_WRAP | {"t_long_loop", "t_class3", "t_closure", "t_shared", "t_class2", "t_async", "t_control", "t_deep",
                            "t_backward_lines", "t_long_columns", "t_py2_long", "t_ints", "t_floats", "t_complex",
                            "t_strings", "t_bytes", "t_comp", "t_misc3", "t_try_nest", "t_match", "t_except_star",
